@@ -412,10 +412,18 @@ def carry_rule(repo, rep):
     idx = None
     for i, st in enumerate(f.node.body):
         if isinstance(st, ast.If) and 'round' in stmt_text(st.test) and '60' in stmt_text(st.test):
-            inc = [n for n in ast.walk(st) if isinstance(n, ast.AugAssign) and isinstance(n.op, ast.Add)]
-            if inc:
-                carry = (st, inc[0].target.id if isinstance(inc[0].target, ast.Name) else None)
-                idx = i
+            tested = set(n.id for n in ast.walk(st.test) if isinstance(n, ast.Name))
+            # the field that receives the carry: a name other than the tested one that is updated from itself plus one
+            for n in st.body:
+                tgt = None
+                if isinstance(n, ast.AugAssign) and isinstance(n.op, ast.Add) and isinstance(n.target, ast.Name):
+                    tgt = n.target.id
+                elif isinstance(n, ast.Assign) and len(n.targets) == 1 and isinstance(n.targets[0], ast.Name) \
+                        and any(isinstance(x, ast.Name) and x.id == n.targets[0].id for x in ast.walk(n.value)) and not isinstance(n.value, ast.Constant):
+                    tgt = n.targets[0].id
+                if tgt is not None and tgt not in tested and carry is None:
+                    carry = (st, tgt)
+                    idx = i
     if carry is None:
         rep.undecided('R-CARRY', key, where(f, f.node), 'no seconds-carry of the form "if round(second, n) == 60: ...; minute += 1"')
         return
@@ -424,7 +432,11 @@ def carry_rule(repo, rep):
     # the cascade may be nested inside the seconds-carry or follow it
     for st in list(ast.walk(carry[0])) + [x for s_ in f.node.body[idx + 1:] for x in ast.walk(s_)]:
         if isinstance(st, ast.If) and st is not carry[0] and mvar in [n.id for n in ast.walk(st.test) if isinstance(n, ast.Name)] and '60' in stmt_text(st.test):
-            if any(isinstance(n, ast.AugAssign) and isinstance(n.op, ast.Add) for n in ast.walk(st)):
+            incs = [n for n in ast.walk(st) if (isinstance(n, ast.AugAssign) and isinstance(n.op, ast.Add) and isinstance(n.target, ast.Name) and n.target.id != mvar)
+                    or (isinstance(n, ast.Assign) and len(n.targets) == 1 and isinstance(n.targets[0], ast.Name) and n.targets[0].id != mvar
+                        and isinstance(n.value, ast.BinOp) and isinstance(n.value.op, ast.Add)
+                        and any(isinstance(x, ast.Name) and x.id == n.targets[0].id for x in ast.walk(n.value)))]
+            if incs:
                 cascade = st
     # values derived from a carried field before the carry must not be used after it (they would miss the carry)
     carried = set()
